@@ -1159,8 +1159,26 @@ def rule_declared_length(res, rid, m):
                         for y in xs.get("args", []):
                             out.extend(forms(y, depth + 1))
                         return out
+                    if xs.get("k") == "bin" and xs.get("op") in ("+", "-") and depth < 3 and \
+                            any(y.get("k") == "call" and callee_name(y) == "std::min" for y in walk(facts.expand(f, xs))):
+                        # a minimum inside a sum (`first + min(size, 16 + L) - first`): one form per choice
+                        out = []
+                        for a9 in forms(xs["l"], depth + 1):
+                            for b9 in forms(xs["r"], depth + 1):
+                                if a9 is None or b9 is None:
+                                    out.append(None)
+                                    continue
+                                d9 = dict(a9)
+                                for k9, v9 in b9.items():
+                                    d9[k9] = d9.get(k9, 0) + (v9 if xs["op"] == "+" else -v9)
+                                out.append(d9)
+                        return out
                     return [_linear(f, xs, syl)]
-                fl = [q for q in forms(ln) if q is not None]
+                ln_e = ln
+                if (strip_all_casts(facts.expand(f, ln)).get("t") or {}).get("k") == "ptr" or (strip(ln).get("t") or {}).get("k") == "ptr":
+                    # a range copy (`assign(first, last)`, `std::copy(first, last, ..)`): the count is last - first
+                    ln_e = {"k": "bin", "op": "-", "l": ln, "r": src, "t": {"k": "int", "bits": 64, "sg": True}}
+                fl = [q for q in forms(ln_e) if q is not None]
                 withL = [q for q in fl if q.get("L")]
                 src_off = prov_offset(f, src)
                 want_c = hdr16 if src_off == 0 else 0
